@@ -10,6 +10,7 @@ import (
 	"fmt"
 	"os"
 	"sort"
+	"strconv"
 	"strings"
 	"sync"
 	"testing"
@@ -56,6 +57,7 @@ func (m *mkrsupMk) has(who, perm string) bool { return m != nil && contains(m.ac
 // mkrsupView is the observable state: what the dump prints and what the generator steers by.
 type mkrsupView struct {
 	max   sdkmath.Int
+	mts   uint64 // the deprecated Params.MaxTotalSupply as stored
 	eg    bool
 	mk    map[string]*mkrsupMk
 	plain map[string]bool // a non-marker account exists at MarkerAddress(denom) (dump section `A`)
@@ -213,7 +215,7 @@ func mkrsupB(b bool) string {
 func (e *mkrsupEnv) view() *mkrsupView {
 	k, bk := e.app.MarkerKeeper, e.app.BankKeeper
 	p := k.GetParams(e.ctx)
-	v := &mkrsupView{max: p.MaxSupply, eg: p.EnableGovernance, mk: map[string]*mkrsupMk{},
+	v := &mkrsupView{max: p.MaxSupply, mts: p.MaxTotalSupply, eg: p.EnableGovernance, mk: map[string]*mkrsupMk{},
 		sup: map[string]sdkmath.Int{}, bal: map[string]map[string]sdkmath.Int{}, plain: map[string]bool{}}
 	for _, d := range mkrsupMks {
 		ma, err := k.GetMarkerByDenom(e.ctx, d)
@@ -265,7 +267,7 @@ func (e *mkrsupEnv) view() *mkrsupView {
 }
 
 func (v *mkrsupView) dump() string {
-	secs := []string{fmt.Sprintf("P max=%s eg=%s", v.max, mkrsupB(v.eg))}
+	secs := []string{fmt.Sprintf("P max=%s mts=%d eg=%s", v.max, v.mts, mkrsupB(v.eg))}
 	for _, d := range mkrsupMks {
 		if m := v.mk[d]; m != nil {
 			typ := "c"
@@ -521,9 +523,21 @@ func (e *mkrsupEnv) parse(ws []string) func(sdk.Context) error {
 		e.need(ws, 4)
 		return mkrsupCall(&markertypes.MsgRemoveAdministratorProposalRequest{Authority: e.a(ws[1]), Denom: ws[2], RemovedAddress: []string{e.a(ws[3])}}, e.srv.RemoveAdministratorProposal)
 	case "params":
-		e.need(ws, 4)
+		if len(ws) != 4 && len(ws) != 5 {
+			mkrsupFail()
+		}
 		p := e.app.MarkerKeeper.GetParams(e.ctx)
-		p.MaxSupply, p.EnableGovernance = mkrsupInt(mkrsupKV(ws[2:], "max", "")), mkrsupBool(mkrsupKV(ws[2:], "eg", ""))
+		// max=nil: the message leaves max_supply out (decodes to the zero-value Int); mts = the
+		// deprecated max_total_supply (uint64), 0 when the op line does not name it.
+		p.MaxSupply = sdkmath.Int{}
+		if mx := mkrsupKV(ws[2:], "max", ""); mx != "nil" {
+			p.MaxSupply = mkrsupInt(mx)
+		}
+		mts, err := strconv.ParseUint(mkrsupKV(ws[2:], "mts", "0"), 10, 64)
+		if err != nil {
+			mkrsupFail()
+		}
+		p.MaxTotalSupply, p.EnableGovernance = mts, mkrsupBool(mkrsupKV(ws[2:], "eg", ""))
 		return mkrsupCall(&markertypes.MsgUpdateParamsRequest{Authority: e.a(ws[1]), Params: p}, e.srv.UpdateParams)
 	case "send":
 		e.need(ws, 4)
@@ -1006,7 +1020,7 @@ var mkrsupWeights = []struct {
 	{"delaccess", [6]int{1, 5, 4, 4, 1, 1}}, {"govinc", [6]int{1, 4, 4, 5, 1, 1}},
 	{"govdec", [6]int{1, 2, 2, 4, 2, 1}}, {"govstatus", [6]int{1, 5, 5, 3, 8, 1}},
 	{"govwithdraw", [6]int{1, 2, 2, 4, 8, 1}}, {"govsetadmin", [6]int{1, 3, 3, 2, 1, 1}},
-	{"govrmadmin", [6]int{1, 2, 2, 2, 1, 1}}, {"params", [6]int{2, 1, 1, 2, 1, 1}},
+	{"govrmadmin", [6]int{1, 2, 2, 2, 1, 1}}, {"params", [6]int{2, 1, 1, 4, 1, 1}},
 	{"beginblock", [6]int{6, 7, 7, 11, 8, 60}}, {"fmint", [6]int{14, 6, 5, 5, 4, 2}},
 	{"govburn", [6]int{1, 2, 2, 3, 2, 1}},
 }
@@ -1194,7 +1208,9 @@ func (g *mkrsupGen) step() {
 	case "govrmadmin":
 		g.emit(fmt.Sprintf("govrmadmin %s %s %s", g.auth(), d, g.grantee(m)))
 	case "params":
-		g.emit(g.genParams(g.auth()))
+		if g.emit(g.genParams(g.auth())) == "ok" {
+			g.afterParams()
+		}
 	case "beginblock":
 		g.emit("beginblock")
 	case "fmint":
@@ -1212,12 +1228,81 @@ func (g *mkrsupGen) step() {
 	}
 }
 
+// genParams: a governance UpdateParams. The maximum is drawn from the boundaries of the current
+// state as much as from comfortable values: 0 ("minting frozen"), 1, a message that leaves
+// max_supply out (nil), a negative value (Params.Validate accepts it), the bank supply of a marker
+// denom -1/+0/+1 (lowered under / onto what exists), a few coins of room, the uint64 / default
+// borders. The deprecated max_total_supply (ignored by GetMaxSupply) is set in a third of the updates,
+// below, at and far above max_supply.
 func (g *mkrsupGen) genParams(auth string) string {
-	mx := sdkmath.NewInt(int64(50 + g.r.Intn(4951)))
-	if g.r.Chance(15) {
-		mx = mkrsupE20
+	r := g.r
+	d := Pick(r, mkrsupMks)
+	if m := g.v.mk[d]; m == nil || m.st != 3 {
+		for _, x := range mkrsupMks { // prefer the denom of an active marker
+			if mx := g.v.mk[x]; mx != nil && mx.st == 3 {
+				d = x
+			}
+		}
 	}
-	return fmt.Sprintf("params %s max=%s eg=%s", auth, mx, mkrsupB(g.r.Bool()))
+	sup, mx, cls := g.v.sup[d], "", ""
+	switch k := r.Intn(100); {
+	case k < 13:
+		mx, cls = "0", "zero"
+	case k < 16:
+		mx, cls = "nil", "nil"
+	case k < 20:
+		mx, cls = "1", "one"
+	case k < 23:
+		mx, cls = sdkmath.NewInt(-int64(1+r.Intn(3)*r.Intn(50))).String(), "neg"
+	case k < 31:
+		mx, cls = sup.String(), "eq_supply"
+	case k < 37 && sup.IsPositive():
+		mx, cls = sup.SubRaw(int64(1+r.Intn(3)*r.Intn(20))).String(), "below_supply"
+	case k < 49:
+		mx, cls = sup.AddRaw(int64(1+r.Intn(12))).String(), "just_above_supply"
+	case k < 58:
+		mx, cls = sdkmath.NewInt(int64(2+r.Intn(199))).String(), "small"
+	case k < 80:
+		mx, cls = sdkmath.NewInt(int64(50+r.Intn(4951))).String(), "mid"
+	case k < 86:
+		mx, cls = Pick(r, []sdkmath.Int{mkrsupP63, mkrsupP64}).AddRaw(int64(r.Intn(3)-1)).String(), "u64_border"
+	default:
+		mx, cls = mkrsupE20.AddRaw(int64(r.Intn(3)-1)).String(), "default_border"
+	}
+	g.out.Count("params_max:" + cls)
+	mts := "0"
+	if r.Chance(34) {
+		switch k := r.Intn(100); {
+		case k < 30:
+			mts = fmt.Sprint(1 + r.Intn(200))
+		case k < 60:
+			mts = fmt.Sprint(1000 + r.Intn(100000))
+		case k < 80 && sup.IsInt64():
+			mts = sup.AddRaw(int64(1 + r.Intn(50))).String()
+		default:
+			mts = "18446744073709551615"
+		}
+		g.out.Count("params_mts:nonzero")
+	} else {
+		g.out.Count("params_mts:zero")
+	}
+	return fmt.Sprintf("params %s max=%s mts=%s eg=%s", auth, mx, mts, mkrsupB(r.Bool()))
+}
+
+// afterParams: right after an accepted UpdateParams, usually try to mint into an active marker (the
+// transaction the new maximum is for): by an administrator with the mint right or by governance.
+func (g *mkrsupGen) afterParams() {
+	for _, d := range mkrsupMks {
+		m := g.v.mk[d]
+		if m == nil || m.st != 3 || !g.r.Chance(70) {
+			continue
+		}
+		if m.gov && g.v.eg && g.r.Chance(30) || !g.anyHas(m, "mint") {
+			g.emit(fmt.Sprintf("govinc GOV %s%s -", g.mintAmt(d, m), d))
+		} else {
+			g.emit(fmt.Sprintf("mint %s %s%s", g.caller(m, "mint"), g.mintAmt(d, m), d))
+		}
+	}
 }
 
 // genFmint respects the environment hypothesis: never a denom with an active fixed-supply marker.
@@ -1248,7 +1333,7 @@ func driveMkrsup(t *testing.T, rng *RNG, n int, out *Out) {
 		if *flagTier == "thorough" {
 			steps = 20 + rng.Intn(31)
 		}
-		if rng.Chance(25) {
+		if rng.Chance(30) {
 			g.emit(g.genParams("GOV"))
 		}
 		if rng.Chance(40) { // pre-existing supply before any marker exists
